@@ -2852,18 +2852,17 @@ func (s *Storage) Decode(d *Decoder) error {
 		// INFO: we want to read the vectors from jamtestnet, so we follow the same
 		// pattern as in the jamtestnet. They put the length of the key before the
 		// key
-		length, err := d.DecodeLength()
+		keyLength, err := d.DecodeLength()
 		if err != nil {
 			return err
-		}
-
-		if length == 0 {
-			return nil
 		}
 
 		var key ByteSequence
 		if err = key.Decode(d); err != nil {
 			return err
+		}
+		if uint64(len(key)) != keyLength {
+			return fmt.Errorf("storage key length %d does not match its prefix %d", len(key), keyLength)
 		}
 		str := string(key)
 
